@@ -82,6 +82,21 @@ func c06Netns(c *Ctx) {
 	ops := append([]*rm.Op{rm.FindOp("GetDevices")}, reqOps()...)
 	N := c.N(300, 6000)
 	bcasts := []string{"", fmt.Sprintf("255.255.255.255:%d", altPort), nsBcast + ":60000", fmt.Sprintf("%s:%d", nsBcast, altPort)}
+	// arrivals are attributed to calls by content (see the loopback layer)
+	recent := map[string]int{}
+	recentQ := []string{}
+	remember := func(b []byte) {
+		k := string(b)
+		recent[k]++
+		recentQ = append(recentQ, k)
+		if len(recentQ) > 64 {
+			old := recentQ[0]
+			recentQ = recentQ[1:]
+			if recent[old]--; recent[old] <= 0 {
+				delete(recent, old)
+			}
+		}
+	}
 	for i := 0; i < N; i++ {
 		caseNo := int64(i)
 		serial := uint32(0x48000000) + uint32(c.Batch)<<20 + uint32(i) + 1
@@ -133,6 +148,7 @@ func c06Netns(c *Ctx) {
 		}
 		histBefore := total()
 		hist := c06History(r, u, cfg, serial, [][4]byte{{10, 77, 0, 2}, {10, 77, 0, 3}, {10, 77, 0, 4}, {10, 77, 0, 5}, {127, 0, 0, 1}}, i%40 == 7, func(hop *rm.Op, hs uint32, ha rm.Vals) {
+			remember(hop.Request(hs, ha))
 			cur.Lock()
 			cur.op, cur.noise, cur.delay = hop, nil, 0
 			cur.reply = validReply(r, hop, hs+map[bool]uint32{true: 77, false: 0}[hop.Discovery], ha)
@@ -223,8 +239,13 @@ func c06Netns(c *Ctx) {
 
 		recvs := []farm.Event{}
 		desc := []string{}
+		remember(wantReq)
 		for _, e := range events {
 			if e.Kind == "recv" {
+				if string(e.Data) != string(wantReq) && recent[string(e.Data)] > 0 {
+					c.Res.Count("netns:late-log-entries-of-earlier-calls(attributed by content)", 1)
+					continue
+				}
 				recvs = append(recvs, e)
 				desc = append(desc, fmt.Sprintf("%s endpoint %s from %s to %s (%d bytes)", e.Proto, fm.Endpoints[e.Endpoint].Addr, e.Src, e.Dst, len(e.Data)))
 			}
